@@ -244,30 +244,42 @@ def run_stage(prop, tier, seed, stage, nshards_default):
     env_extra = dict(stage.get("env", {}))
     results = run_shards(variant, prop, tier, seed, nshards, out_dir, stage.get("args", []), timeout_s, env_extra)
     died = [r for r in results if r["json"] is None]
-    # a shard that died: identify the case from the BEGIN/END log and re-run it alone
-    for r in died:
-        case = last_begin(out_dir, r["shard"])
-        err_tail = tail(os.path.join(out_dir, f"shard-{r['shard']}.stderr"))
-        if case is None:
-            res["inconclusive"].append(f"{name}: shard {r['shard']} ended (rc={r['rc']}, timeout={r['timed_out']}) outside any case: {err_tail[-400:]}")
-            continue
-        sub, idx = case
-        solo_dir = os.path.join(WORK, "logs", prop, name + f"-solo-{r['shard']}")
-        solo_timeout = timeout_s if not r["timed_out"] else timeout_s * 4
-        solo = run_shards(variant, prop, tier, seed, 1, solo_dir, stage.get("args", []) + ["--replay", sub, str(idx)], solo_timeout, env_extra, shard_ids=[0])[0]
-        solo_tail = tail(os.path.join(solo_dir, "shard-0.stderr"), 60)
-        if solo["json"] is not None:
-            # did not reproduce alone: keep its findings, flag the shard loss as inconclusive
-            results.append(solo)
-            res["inconclusive"].append(f"{name}: shard {r['shard']} died in case {sub}/{idx} (rc={r['rc']}, timeout={r['timed_out']}) but the case passes alone")
-            continue
-        kind = classify_death(solo, solo_tail, variant)
-        if kind is None or not stage.get("death_is_violation", False):
-            res["inconclusive"].append(f"{name}: case {sub}/{idx} kills the shard (rc={solo['rc']}, timeout={solo['timed_out']}): {solo_tail[-600:]}")
-        else:
-            res["violations"].append({"sig": kind, "sub": sub, "idx": idx, "seed": seed, "variant": variant, "detail": {"what": "the process running this case was terminated", "rc": solo["rc"], "timed_out": solo["timed_out"], "stderr_tail": solo_tail[-3000:]}})
-        # the rest of that shard's cases were lost: run them again without the killer? keep simple: report
-        res["notes"].append(f"shard {r['shard']} lost after case {sub}/{idx}")
+    # a shard that died: identify the case from the BEGIN/END log, re-run it alone to classify
+    # the death, then resume the shard after that case so that no other case is lost
+    for r0 in died:
+        r = r0
+        cur_dir = out_dir
+        restarts = 0
+        while r["json"] is None:
+            case = last_begin(cur_dir, r["shard"])
+            err_tail = tail(os.path.join(cur_dir, f"shard-{r['shard']}.stderr"))
+            if case is None:
+                res["inconclusive"].append(f"{name}: shard {r['shard']} ended (rc={r['rc']}, timeout={r['timed_out']}) outside any case: {err_tail[-400:]}")
+                break
+            sub, idx = case
+            solo_dir = os.path.join(WORK, "logs", prop, name + f"-solo-{r['shard']}-{restarts}")
+            solo_timeout = timeout_s if not r["timed_out"] else timeout_s * 4
+            solo = run_shards(variant, prop, tier, seed, 1, solo_dir, stage.get("args", []) + ["--replay", sub, str(idx)], solo_timeout, env_extra, shard_ids=[0])[0]
+            solo_tail = tail(os.path.join(solo_dir, "shard-0.stderr"), 60)
+            if solo["json"] is not None:
+                # did not reproduce alone: keep its findings, flag the shard loss as inconclusive
+                results.append(solo)
+                res["inconclusive"].append(f"{name}: shard {r['shard']} died in case {sub}/{idx} (rc={r['rc']}, timeout={r['timed_out']}) but the case passes alone")
+            else:
+                kind = classify_death(solo, solo_tail, variant)
+                if kind is None or not stage.get("death_is_violation", False):
+                    res["inconclusive"].append(f"{name}: case {sub}/{idx} kills the shard (rc={solo['rc']}, timeout={solo['timed_out']}): {solo_tail[-600:]}")
+                else:
+                    res["violations"].append({"sig": kind, "sub": sub, "idx": idx, "seed": seed, "variant": variant, "detail": {"what": "the process running this case was terminated", "rc": solo["rc"], "timed_out": solo["timed_out"], "stderr_tail": solo_tail[-3000:]}})
+            restarts += 1
+            if restarts > 40:
+                res["inconclusive"].append(f"{name}: shard {r['shard']} restarted {restarts} times; giving up on its remaining cases")
+                break
+            cur_dir = os.path.join(WORK, "logs", prop, name + f"-resume-{r['shard']}-{restarts}")
+            r = run_shards(variant, prop, tier, seed, nshards, cur_dir, stage.get("args", []) + ["--resume-after", sub, str(idx)], timeout_s, env_extra, shard_ids=[r["shard"]])[0]
+            if r["json"] is not None:
+                results.append(r)
+        res["notes"].append(f"shard {r0['shard']} was restarted {restarts} time(s)")
     agg = merge(results)
     for v in agg["violations"]:
         v["variant"] = variant
